@@ -95,7 +95,21 @@ def _length_refusals(ctx, fi, level):
 
     def refusal_terms(test, env):
         terms = []
-        ts = test.values if isinstance(test, ast.BoolOp) and isinstance(test.op, ast.Or) else [test]
+        if isinstance(test, ast.BoolOp) and isinstance(test.op, ast.And):
+            # `level == 1 and (len(name) > 8 or ...)`: operands the level decides drop out; what is left refuses alone
+            rest = []
+            for v in test.values:
+                pv = _peval(v, env)
+                if pv is _UNKNOWN:
+                    rest.append(v)
+                elif not pv:
+                    return []
+            return refusal_terms(rest[0], env) if len(rest) == 1 else []
+        if isinstance(test, ast.BoolOp) and isinstance(test.op, ast.Or):
+            for v in test.values:
+                terms.extend(refusal_terms(v, env))
+            return terms
+        ts = [test]
         for t in ts:
             if isinstance(t, ast.Compare) and len(t.ops) == 1 and isinstance(t.left, ast.Call) and norm(t.left.func) == 'len' and t.left.args and \
                     isinstance(t.left.args[0], ast.Name):
